@@ -400,6 +400,114 @@ fn block_local_cases() -> Vec<(Case, String)> {
 }
 
 // ---------------------------------------------------------------------------------------------
+// family `include-in-arm`: an `#include` directive is content of the arm it stands in: the file's text counts where the
+// directive is when the arm is live, and nothing of it when the arm is dead (not even whether the file exists).
+// The model reads the program with the included text written out in place.
+
+struct IncCase {
+    c: Case,
+    text: String,
+    files: Vec<(String, Vec<u8>)>,
+    /// the same program with the directive simply dropped (what "the directive is ignored" would give)
+    without: Vec<Item>,
+}
+
+fn include_in_arm_cases() -> Vec<IncCase> {
+    let mut out = vec![];
+    let m = |k: u8| Item::Marker(k);
+    // included texts: (name, items it stands for, file text or None = the file does not exist)
+    let incs: Vec<(&str, Vec<Item>, Option<&str>)> = vec![
+        ("marker", vec![m(0x77)], Some("#d8 0x77\n")),
+        ("constant", vec![konst("K", int(5))], Some("K = 5\n")),
+        ("missing-file", vec![], None),
+    ];
+    for (iname, iitems, ifile) in &incs {
+        for place in 0..5usize {
+            // 0 live first arm, 1 dead first arm (else live), 2 live else arm, 3 nested live arm, 4 top level (control)
+            for a_val in [true, false] {
+                let live = match place {
+                    0 | 3 => a_val,
+                    1 => a_val,
+                    2 => !a_val,
+                    _ => true,
+                };
+                let placeholder = Item::Func("__include_here__".into());
+                let arm_with = |mark: u8| vec![m(mark), placeholder.clone(), m(mark + 1)];
+                let chain = match place {
+                    0 | 1 => Item::If(vec![(v("A"), arm_with(0x20))], Some(vec![m(0x30)])),
+                    2 => Item::If(vec![(v("A"), vec![m(0x20)])], Some(arm_with(0x30))),
+                    3 => Item::If(vec![(v("A"), vec![Item::If(vec![(E::Bool(true), arm_with(0x20))], None)])], Some(vec![m(0x30)])),
+                    _ => Item::If(vec![(v("A"), vec![m(0x20)])], Some(vec![m(0x30)])),
+                };
+                let mut skeleton = vec![konst("A", E::Bool(a_val)), m(0x10), chain];
+                if place == 4 {
+                    skeleton.push(placeholder.clone());
+                }
+                if *iname == "constant" {
+                    skeleton.push(Item::If(vec![(eq(v("K"), int(5)), vec![m(0x55)])], Some(vec![m(0x66)])));
+                }
+                skeleton.push(m(0x40));
+                if *iname == "constant" && !live {
+                    continue; // K would be undeclared: another family's subject
+                }
+                if *iname == "missing-file" && live {
+                    // a live directive naming a missing file is an error: stated by hand below
+                }
+                fn subst(items: &[Item], with: &[Item]) -> Vec<Item> {
+                    let mut o = vec![];
+                    for it in items {
+                        match it {
+                            Item::Func(n) if n == "__include_here__" => o.extend(with.iter().cloned()),
+                            Item::If(chain, els) => o.push(Item::If(chain.iter().map(|(c, b)| (c.clone(), subst(b, with))).collect(), els.as_ref().map(|b| subst(b, with)))),
+                            other => o.push(other.clone()),
+                        }
+                    }
+                    o
+                }
+                let prog = subst(&skeleton, iitems);
+                let without = subst(&skeleton, &[]);
+                let text = text_of(&skeleton).replace("#fn __include_here__(x) => x + 1", "#include \"inc.asm\"");
+                let mut files = vec![("main.asm".to_string(), text.clone().into_bytes())];
+                if let Some(t) = ifile {
+                    files.push(("inc.asm".to_string(), t.as_bytes().to_vec()));
+                }
+                let coord = format!("{} place{} A={} live={}", iname, place, a_val, live);
+                out.push(IncCase { c: Case { family: "include-in-arm", coord, prog, defines: vec![] }, text, files, without });
+            }
+        }
+    }
+    out
+}
+
+fn judge_include_in_arm(ic: &IncCase, l: &mut Local) {
+    let c = &ic.c;
+    let missing_live = c.coord.starts_with("missing-file") && c.coord.ends_with("live=true");
+    let o = ifworld(&c.prog, &[]);
+    let opts = run::Opts::iters(30);
+    l.eval();
+    let obs = run::assemble_files(&ic.files, &["main.asm"], &opts);
+    record(&o, l);
+    l.class(&format!("family:{}", c.family));
+    l.nontrivial(&ic.text);
+    let exp = if missing_live { json!({"success": false, "error": "the included file does not exist"}) } else { expected_json(&o) };
+    if !matches!(o.verdict, Verdict::Unspec(_)) {
+        l.traces_validated += 1;
+    }
+    if let Some(how) = disagreement(&exp, &obs) {
+        // input-side classification of the recorded finding: the observation is exactly that of the program with the
+        // directive dropped
+        let ignored = disagreement(&expected_json(&ifworld(&ic.without, &[])), &obs).is_none() && c.coord.contains("place") && !c.coord.contains("place4");
+        let key = if ignored { "C16:include-directive-inside-an-arm-is-ignored".to_string() } else { violation_key(c.family, &o, how) };
+        l.violation(Violation {
+            property: ID,
+            key,
+            what: format!("{} [{} {}]: model expects {}, real: {}", how, c.family, c.coord, exp, if obs.success() { format!("success hex={}", obs.hex()) } else { "failure".to_string() }),
+            case: json!({"kind": "include-in-arm", "family": c.family, "coord": c.coord, "program": ic.text, "files": ic.files.iter().map(|(n, b)| json!([n, String::from_utf8_lossy(b)])).collect::<Vec<_>>(), "expected": exp, "observed": obs.summary()}),
+        });
+    }
+}
+
+// ---------------------------------------------------------------------------------------------
 // family `tree`: condition trees
 
 #[derive(Clone, Debug)]
@@ -1121,6 +1229,10 @@ pub fn run(ctx: &Ctx) -> Report {
         let bl = block_local_cases();
         rep.absorb(par_cases(&bl, |(c, text), l| judge_text(c, text.clone(), 30, l)));
     }
+    if want("include-in-arm") {
+        let ia = include_in_arm_cases();
+        rep.absorb(par_cases(&ia, judge_include_in_arm));
+    }
     if want("long") {
         let longs = long_cases();
         rep.absorb(par_cases(&longs, |(c, b), l| judge_b(c, *b, l)));
@@ -1175,7 +1287,12 @@ pub fn replay(ctx: &Ctx, case: &Value) -> i32 {
                 };
                 opts.defines.push((name, val));
             }
-            let obs = run::assemble_str(prog, &opts);
+            let obs = if case["kind"].as_str() == Some("include-in-arm") {
+                let files: Vec<(String, Vec<u8>)> = case["files"].as_array().cloned().unwrap_or_default().iter().map(|f| (f[0].as_str().unwrap_or("").to_string(), f[1].as_str().unwrap_or("").as_bytes().to_vec())).collect();
+                run::assemble_files(&files, &["main.asm"], &opts)
+            } else {
+                run::assemble_str(prog, &opts)
+            };
             println!("program:\n{}\ndefines: {}\nexpected: {}\nobserved: {}", prog, case["defines"], exp, obs.summary());
             disagreement(exp, &obs)
         };
